@@ -1,5 +1,4 @@
-import NixModel.Pure.NdStore
-import NixModel.Generated.DataSetShape
+import NixModel.Pure.NdRun
 import NixModel.Lemmas.C01Append
 
 /-! C01: the definitions compiled from the Python source (`Generated/DataSetShape.lean`) are, for all inputs,
@@ -203,5 +202,16 @@ theorem dsAppend_eq (A : DArr) (d : Arr) (axis : Int) : dsAppend A d axis = appe
   · have hl' : (A.arr.shape.length : Int) ≠ ((contiguous d.a).shape.length : Int) := by
       intro h; exact hl (by exact_mod_cast h)
     simp [hl', hl, pyRaise]
+
+theorem dsSetExtent_h5 (A : DArr) (e : List Int) : dsSetExtent A e = h5Resize A e := rfl
+
+/-- the steps the driver executes (through the compiled definitions) are the steps of the model -/
+theorem stepGen_eq (A : DArr) (s : TStep) : stepGen A s = stepS A s := by
+  cases s with
+  | write d => simp only [stepGen, stepS, dsWriteDirect_eq]
+  | assign ix d => simp only [stepGen, stepS, dsSetItem_eq]
+  | append d axis => exact dsAppend_eq A d axis
+  | resize e => rfl
+  | reopen => rfl
 
 end Nix.Nd.Lemmas
